@@ -79,10 +79,16 @@ pub fn intern_drive(seed: u64, episodes: usize, len: usize, big: usize, out: &st
     let mut f = std::io::BufWriter::new(std::fs::File::create(out).expect("create out"));
     let mut master = Rng::new(seed);
     let strs = ["a", "b", "c", "x1", "http://e/1", "", "xml", "space", "id", "http://www.w3.org/XML/1998/namespace", "é", "A",
-                " a", "a ", " a ", "a\n", "\ta", " ", "a b", "Xml", "HTTP://E/1", "http://e/1/", "zz", "other", "n1", "n2", "q1", "v1", "w&x"];
+                " a", "a ", " a ", "a\n", "\ta", " ", "a b", "Xml", "HTTP://E/1", "http://e/1/", "zz", "other", "n1", "n2", "q1", "v1", "w&x", "BR", "br", "DIV", "Br", "svg"];
     // texts for the opaque calls: accepted ones, and rejected ones that have registered new strings before the error
     // (text, what an accepted parse of it has registered: (table, string, namespace of a name))
-    let texts: [(&str, &[(&str, &str, &str)]); 11] = [
+    let texts: [(&str, &[(&str, &str, &str)]); 15] = [
+        // a processing-instruction target is a plain name, whatever default namespace is in force around it
+        ("<a xmlns='u1'><?zz d?><b><?q1?></b></a>", &[("name", "zz", ""), ("name", "q1", ""), ("name", "a", "u1"), ("name", "b", "u1")]),
+        ("<?other x?><BR xmlns='http://www.w3.org/1999/xhtml'><br/></BR>", &[("name", "other", ""), ("name", "BR", "http://www.w3.org/1999/xhtml"), ("name", "br", "http://www.w3.org/1999/xhtml")]),
+        // a prefix rebound on an inner element and used again behind it: both expanded names are registered
+        ("<r xmlns:p='v1'><x xmlns:p='u1'><p:e/></x><p:e/></r>", &[("name", "e", "u1"), ("name", "e", "v1"), ("ns", "v1", ""), ("ns", "u1", "")]),
+        ("<r xmlns='v1'><x xmlns='u1'><zz/></x><zz q1='1'/></r>", &[("name", "zz", "u1"), ("name", "zz", "v1"), ("name", "q1", "")]),
         ("<a xmlns='u1' xmlns:p='http://e/1' p:b='1'><p:c x1='2'/><b/></a>",
          &[("ns", "u1", ""), ("ns", "http://e/1", ""), ("px", "p", ""), ("name", "a", "u1"), ("name", "b", "u1"), ("name", "c", "http://e/1"),
            ("name", "b", "http://e/1"), ("name", "x1", "")]),
@@ -122,7 +128,8 @@ pub fn intern_drive(seed: u64, episodes: usize, len: usize, big: usize, out: &st
         for step in 0..nsteps {
             let roll = if ep == 0 && big > 0 { [90, 90, 90, 92, 92, 93][step % 6] } else { r.below(100) };
             let s = *r.pick(&strs);
-            let nss = *r.pick(&["", "u1", "http://e/1", "http://www.w3.org/XML/1998/namespace", " u1", "u1 ", "U1"]);
+            let nss = *r.pick(&["", "u1", "http://e/1", "http://www.w3.org/XML/1998/namespace", " u1", "u1 ", "U1", "https://www.w3.org/1999/xhtml",
+                                "http://www.w3.org/1999/xhtml", "http://www.w3.org/2000/svg"]);
             last = format!("step {step} roll {roll} string {s:?} namespace {nss:?}");
             let mut m;
             if roll < 22 {
@@ -281,7 +288,7 @@ pub fn intern_drive(seed: u64, episodes: usize, len: usize, big: usize, out: &st
             } else if roll < 93 {
                 m = ev("clone", "", "", -1, "");
                 x = x.clone();
-            } else if roll < 98 {
+            } else if roll < 97 {
                 m = ev("opaque", "", "parse", -1, "");
                 let (t, registered) = *r.pick(&texts);
                 let accepted = match r.below(3) {
@@ -332,8 +339,36 @@ pub fn intern_drive(seed: u64, episodes: usize, len: usize, big: usize, out: &st
                 }
                 continue;
             } else {
-                m = ev("opaque", "", "html5", -1, "");
-                let _ = x.html5();
+                // html5() registers the HTML element names itself; names registered before it (also upper-case ones in
+                // the namespace it takes for XHTML) must keep their ids: register, call html5(), register again
+                let hn = *r.pick(&["BR", "DIV", "br", "Img", "svg"]);
+                let hns = *r.pick(&["https://www.w3.org/1999/xhtml", "http://www.w3.org/1999/xhtml", ""]);
+                for round in 0..2 {
+                    let nsid = x.add_namespace(hns);
+                    let mut m0 = ev("add", "ns", hns, -1, "");
+                    let (cl0, fresh0) = c.ns(nsid);
+                    m0.insert("cls".into(), json!(cl0));
+                    m0.insert("fresh".into(), json!(fresh0));
+                    m0.insert("has".into(), json!(true));
+                    m0.insert("rb".into(), split_key(x.namespace_str(nsid), hns, -1));
+                    writeln!(f, "{}", J::Object(m0)).unwrap();
+                    let id = x.add_name_ns(hn, nsid);
+                    let mut m1 = ev("add", "name", hn, -1, hns);
+                    let (cl, fresh) = c.name(id);
+                    m1.insert("cls".into(), json!(cl));
+                    m1.insert("fresh".into(), json!(fresh));
+                    m1.insert("has".into(), json!(true));
+                    let (l, n) = x.name_ns_str(id);
+                    m1.insert("rb".into(), split_key(l, hn, -1));
+                    m1.insert("rbns".into(), json!(n));
+                    writeln!(f, "{}", J::Object(m1)).unwrap();
+                    if round == 0 {
+                        let mo = ev("opaque", "", "html5", -1, "");
+                        let _ = x.html5();
+                        writeln!(f, "{}", J::Object(mo)).unwrap();
+                    }
+                }
+                continue;
             }
             writeln!(f, "{}", J::Object(m)).unwrap();
         }
